@@ -158,15 +158,14 @@ func runLifeSeq(ctx context.Context, srv *sim.Server, seqNo int, calls []lcall, 
 			a.Close()
 			if di, derr := srv.Be.DB.FindDocInfoByKey(ctx, p.ID, key.Key(keys[call.d])); derr == nil && di != nil {
 				knownDocID[call.d] = di.ID.String()
-				if old := sl.atts[call.d]; old == nil || old.DocID != di.ID.String() {
-					if old != nil {
-						old.Close()
-					}
-					d, stop := sim.NewDoc(keys[call.d])
-					d.SetActor(sl.c.ID)
-					sl.atts[call.d] = sim.NewRawAtt(sl.c, d, di.ID.String(), stop)
-					sl.ever[call.d] = false
+				// what the slot holds from now on is the instance of the failed attach: never attached
+				if old := sl.atts[call.d]; old != nil {
+					old.Close()
 				}
+				d, stop := sim.NewDoc(keys[call.d])
+				d.SetActor(sl.c.ID)
+				sl.atts[call.d] = sim.NewRawAtt(sl.c, d, di.ID.String(), stop)
+				sl.ever[call.d] = false
 			}
 		case "atts": // attach again with the SAME Document instance (not a fresh one)
 			if sl == nil {
